@@ -25,6 +25,19 @@ SYNTAX_ERRORS = [          # (text of the offending line, fragment expected in t
 ]
 
 
+MISSING_TERMINATOR = [
+    ("var unterminated = 1", "Expected ';' after variable declaration."),
+    ("var unterminated", "Expected ';' after variable declaration."),
+    ("print(1)", "Expected ';' after expression."),
+    ("1 + 2", "Expected ';' after expression."),
+    ("throw 1", "Expected ';' after throw value."),
+    ("while true { break }", None),
+    ("fn early() { return 1 }", None),
+    ("import \"lib\" as lib", "Expected ';' after module import."),
+]
+MISSING_TERMINATOR = [m for m in MISSING_TERMINATOR if m[1]]
+
+
 def compile_error_cases(rng, count):
     """a valid multi-line program with one offending line: the reported line must be that line"""
     cases = []
@@ -36,6 +49,18 @@ def compile_error_cases(rng, count):
         for i in range(nlines):
             f = rng.choice(filler)
             lines.append(f % ((i, i) if f.count("%d") == 2 else ()))
+        if k % 3 == 2:
+            # a statement whose terminator is missing: the offending token is the FIRST TOKEN OF A LATER LINE (blank and comment lines
+            # in between), and that is the line the error has to name
+            bad, what = rng.choice(MISSING_TERMINATOR)
+            gap = rng.choice([[], [""], ["// note"], ["", "// note", ""]])
+            nxt = rng.choice([("var after%d = 0;" % k, "var"), ("print(0);", "print"), ("fn later%d() { }" % k, "fn"), ("{ }", "{")])
+            pos = rng.randint(0, len(lines))
+            line_no = sum(l.count("\n") + 1 for l in lines[:pos]) + 1 + bad.count("\n") + 1 + len(gap)
+            lines[pos:pos] = [bad] + gap + [nxt[0]]
+            src = "\n".join(lines) + "\n"
+            cases.append({"id": k, "main": src, "compile_only": True, "line": line_no, "frag": "Error at '%s': %s" % (nxt[1], what), "bad": bad})
+            continue
         bad, frag = rng.choice(SYNTAX_ERRORS)
         pos = rng.randint(0, len(lines))
         # the physical line of the offending text (multi-line string literals in the filler shift it)
